@@ -31,6 +31,7 @@ fn main() {
         "sr-record" => sr::record(&args),
         "ty-replay" => ty::replay(&args),
         "ty-record" => ty::record(&args),
+        "ty-probe" => ty::probe(&args),
         "f32-sweep" => nm::f32_sweep(&args),
         "dom-replay" => dom::replay(&args),
         "sd-replay" => sd::replay(&args),
